@@ -7,7 +7,9 @@ T: every real `get_resolved_res_configs` runs in a subprocess (harness/arscreal.
    value-error.  The abstract table the Lean model gets is what the real parser left in `resource_values`.
 S: oracle = the generator's model: the resolution must return, and the set of concrete values it returns must
    be exactly the values reachable through references (harness/arscgen.reach_values; breadth-first search on
-   the abstract model, no androguard, no Lean)."""
+   the abstract model, no androguard, no Lean).  Overlapping resolutions: two resolver instances on two parser objects
+   (and on one), the second resolution run to completion while the first is parked at a chosen depth of its reference
+   path -- deterministically inside a hook on get_res_configs, and with two real threads and an event hand-off."""
 import glob
 import json
 import os
@@ -21,6 +23,15 @@ from harness.fw import VERIF, Check, Driver, ToolFailure
 
 CORPUS = os.path.join(VERIF, "corpus", "C29")
 P = 0x7F
+PINS = [
+    ("androguard/core/axml/__init__.py", "ARSCParser.ResourceResolver.__init__"),
+    ("androguard/core/axml/__init__.py", "ARSCParser.ResourceResolver.resolve"),
+    ("androguard/core/axml/__init__.py", "ARSCParser.ResourceResolver._resolve_into_result"),
+    ("androguard/core/axml/__init__.py", "ARSCParser.ResourceResolver.put_ate_value"),
+    ("androguard/core/axml/__init__.py", "ARSCParser.ResourceResolver.put_item_value"),
+    ("androguard/core/axml/__init__.py", "ARSCParser.get_resolved_res_configs"),
+    ("androguard/core/axml/__init__.py", "ARSCParser.get_res_configs"),
+]
 
 
 # ------------------------------------------------------------------ hand-made witnesses (corpus)
@@ -131,10 +142,138 @@ def judge(ck, case, r, cfgs, expected, what_prefix=""):
     return True
 
 
+# ------------------------------------------------------------------ overlapping resolutions
+def _safe(fn, cfgs):
+    from harness import arscreal
+    try:
+        return {"kind": "ok", "toks": arscreal.canon_result(fn(), cfgs)}
+    except RecursionError:
+        return {"kind": "recursion"}
+    except ValueError:
+        return {"kind": "value-error"}
+    except Exception as e:  # noqa
+        return {"kind": "other:" + type(e).__name__}
+
+
+def run_schedule(axml, data: bytes, sched: dict, cfgs=None):
+    """two resolutions that overlap in time, each through the public API with its own resolver instance.
+    The outer one resolves `rid1` on parser object P1; when it enters `get_res_configs` for the k-th time (its
+    reference path is then k ids long) the other resolution of `rid2` runs to completion
+      mode "nested"  : inside the hook, on a second parser object (what a preempted thread sees, deterministically)
+      mode "reenter" : inside the hook, on the SAME parser object (re-entrancy)
+      mode "threads" : in a second thread on a second parser object, hand-off by events
+    Returns (outer, inner, calls) in the canonical form of harness/arscreal.py; calls = number of hook entries."""
+    import threading
+    from harness import arscreal
+    cfgs = cfgs or arscreal.Cfgs()
+    p1 = axml.ARSCParser(data)
+    p2 = p1 if sched["mode"] == "reenter" else axml.ARSCParser(data)
+    p1._analyse(); p2._analyse()
+    orig = p1.get_res_configs
+    st = {"n": 0, "inner": None, "busy": False}
+    k, rid1, rid2 = sched["k"], sched["rid1"], sched["rid2"]
+    parked, release = threading.Event(), threading.Event()
+
+    def hook(rid, config=None, fallback=True):
+        if not st["busy"]:
+            st["n"] += 1
+            if st["n"] == k:
+                if sched["mode"] == "threads":
+                    parked.set()
+                    if not release.wait(10):
+                        raise ToolFailure("hand-off timed out")
+                else:
+                    st["busy"] = True
+                    try:
+                        st["inner"] = _safe(lambda: p2.get_resolved_res_configs(rid2, None), cfgs)
+                    finally:
+                        st["busy"] = False
+        return orig(rid, config, fallback)
+    p1.get_res_configs = hook
+    try:
+        if sched["mode"] == "threads":
+            res = {}
+            t1 = threading.Thread(target=lambda: res.__setitem__("outer", _safe(lambda: p1.get_resolved_res_configs(rid1, None), cfgs)))
+
+            def second():
+                if parked.wait(10):
+                    st["inner"] = _safe(lambda: p2.get_resolved_res_configs(rid2, None), cfgs)
+                release.set()
+            t2 = threading.Thread(target=second)
+            t1.start(); t2.start(); t1.join(30); t2.join(30)
+            if t1.is_alive() or t2.is_alive() or "outer" not in res:
+                raise ToolFailure("two-thread schedule did not finish")
+            outer = res["outer"]
+        else:
+            outer = _safe(lambda: p1.get_resolved_res_configs(rid1, None), cfgs)
+    finally:
+        del p1.get_res_configs
+    return outer, st["inner"], st["n"], p1, cfgs
+
+
+def interleavings(ck, drv):
+    """a few dozen schedules per run; oracle: each of the two resolutions returns exactly its reachable value set;
+    correspondence: each equals what the model says for that id alone"""
+    from androguard.core import axml
+    from harness import arscreal
+    rng = ck.rng
+    big = (not ck.quick) or getattr(ck, "escalated", False)
+    models = [m for m, _ in witnesses().values()]
+    for _ in range(40 if big else 8):
+        models.append(arscgen.random_table(rng, npkg=1, cycles=True, max_entries=4))
+    budget = 600 if big else 90
+    reqs, real, nsched, nthreads, noverlap = [], [], 0, 0, 0
+    for mi, model in enumerate(models):
+        data = encode_arsc(model)
+        ev = arscgen.expected_values(model)
+
+        def refs_of(r):
+            return {v.res_id for _, e, _ in ev.get(r, []) for v in arscgen.entry_values(e) if isinstance(v, Ref) and v.res_id and v.res_id != r}
+
+        def reach_ids(r):
+            seen, todo = set(), [r]
+            while todo:
+                x = todo.pop()
+                if x not in seen:
+                    seen.add(x); todo += list(refs_of(x))
+            return seen
+        starts = [r for r in sorted(ev) if refs_of(r) & set(ev)]
+        rng.shuffle(starts)
+        for rid1 in starts[:3]:
+            _, _, calls, _, _ = run_schedule(axml, data, {"mode": "nested", "k": 0, "rid1": rid1, "rid2": rid1})
+            r1 = reach_ids(rid1)
+            seconds = [r for r in sorted(ev) if reach_ids(r) & r1] or sorted(ev)
+            rng.shuffle(seconds)
+            for k in range(1, min(calls, 4) + 1):
+                for rid2 in seconds[:3]:
+                    if nsched >= budget:
+                        break
+                    mode = ("threads" if nsched % 5 == 4 else "reenter" if nsched % 5 == 2 else "nested")
+                    sched = {"mode": mode, "k": k, "rid1": rid1, "rid2": rid2}
+                    outer, inner, _, p1, cfgs = run_schedule(axml, data, sched)
+                    nsched += 1; nthreads += mode == "threads"
+                    if inner is None:
+                        continue
+                    noverlap += 1
+                    targ = table_arg({str(r): v for r, v in arscreal.abstract_table(axml, p1, cfgs).items()})
+                    for who, rid, r in (("outer", rid1, outer), ("inner", rid2, inner)):
+                        reqs.append(f"resolve - {rid} {targ}")
+                        real.append(canon_real(r))
+                        judge(ck, {"hex": data.hex(), "schedule": sched, "which": who, "rid": rid, "wanted": None}, r,
+                              [tuple(w) for w in cfgs.words], arscgen.reach_values(ev, rid, None),
+                              "overlapping resolutions (%s, %s): " % (mode, who))
+    ck.compare("resolve-overlapping", reqs, real, drv.ask(reqs))
+    ck.cover(evaluations=nsched, distinct=[("sched", r) for r in reqs],
+             dist={"schedules": nsched, "schedules_two_threads": nthreads, "schedules_overlapping": noverlap})
+
+
 def run(ck: Check):
+    ck.pins_changed(PINS)
+    ck.run_gen("resolver")
     ck.prove(exes=["drv_C29"])
     drv = Driver("drv_C29")
     rng = ck.rng
+    interleavings(ck, drv)
     ck.rule = ("tables from the independent writer with planted reference chains/cycles of length 1..5 (simple, compact and "
                "complex entries referring back), random references, dangling and null references, several configurations; "
                "every id of the table (plus 0 and a dangling id) is resolved with config None/default/an existing/"
@@ -156,7 +295,7 @@ def run(ck: Check):
         judge(ck, case, rep["results"][0], rep["cfgs"], set(tuple(tuple(y) if isinstance(y, list) else y for y in x) for x in c["expected"]),
               "corpus %s: " % c["name"])
     # ---- generated tables
-    ntab = 250 if ck.quick else 6000
+    ntab = 250 if ck.quick and not getattr(ck, "escalated", False) else 6000 if not ck.quick else 1500
     batch, metas = [], []
     dist = {"tables": 0, "queries": 0, "cyclic_tables": 0, "reaches_ref": 0, "kind_ok": 0, "kind_value-error": 0,
             "kind_recursion": 0, "kind_timeout": 0, "complex_entries": 0, "compact_entries": 0}
@@ -251,6 +390,14 @@ def replay(ck: Check, rp):
     c = rp.get("case") or {}
     if "hex" not in c:
         print("replay", json.dumps(rp.get("first_divergence") or rp.get("errors") or rp, indent=1)[:3000])
+        return 0
+    if "schedule" in c:
+        from androguard.core import axml
+        outer, inner, calls, _, cfgs = run_schedule(axml, bytes.fromhex(c["hex"]), c["schedule"])
+        print("replay schedule", c["schedule"], "(judged: %s)" % c.get("which"))
+        print("outer rid1=%s:" % hex(c["schedule"]["rid1"]), outer)
+        print("inner rid2=%s:" % hex(c["schedule"]["rid2"]), inner)
+        print("expected values:", rp.get("expected"))
         return 0
     q = [[c["rid"], c.get("wanted")]] if c.get("rid") is not None else []
     rep = run_real([{"hex": c["hex"], "queries": q, "seconds": 5.0}])[0]
